@@ -537,7 +537,21 @@ func (c *Ctx) calledInLoop(fn *ssa.Function, depth int, seen map[*ssa.Function]b
 					if callee != fn {
 						continue
 					}
-					if blockInLoop(b) || c.calledInLoop(g, depth+1, seen) {
+					if blockInLoop(b) {
+						return true
+					}
+					if c.M.IsHandedCall(ci.Common()) {
+						// fn runs here because a call site handed it over: that call site is where it is "called"
+						if hs := c.M.HandingSites(fn); len(hs) > 0 {
+							for _, h := range hs {
+								if blockInLoop(h.Block()) || c.calledInLoop(h.Parent(), depth+1, seen) {
+									return true
+								}
+							}
+							continue
+						}
+					}
+					if c.calledInLoop(g, depth+1, seen) {
 						return true
 					}
 				}
